@@ -19,14 +19,15 @@
 (*     of one kind follow their native order);                                                 *)
 (*   - a pair with an int in it never compares AGAINST the exact order; it may compare 0       *)
 (*     although the numbers differ (named deviation CoarseTie: the statement does not say that *)
-(*     unequal ints compare non-zero, and the code compares ints after conversion to double,   *)
-(*     so 2^53 and 2^53 + 1 tie).  Which ties are lawful is then settled by the preorder       *)
+(*     unequal ints compare non-zero; a cmp that compares ints after conversion to double, as  *)
+(*     the code did until repair f59ec17, ties 2^53 and 2^53 + 1 and is a lawful preorder).  Which ties are lawful is then settled by the preorder       *)
 (*     axioms themselves: transitivity over all triples together with the strictly ordered     *)
 (*     floats of the universe forbids a tie that spans two different doubles, and forbids      *)
 (*     "2^53 ~ 2.0^53 ~ 2^53+1 but 2^53 < 2^53+1".                                             *)
-(* Mechanism level: CmpModelX = CmpModel with the int -> double conversion (round to nearest,  *)
-(* ties to even, 53 bits; beyond the doubles: the infinity of the sign) made explicit;         *)
-(* CmpModelExact = the same with numbers compared exactly (also lawful: no coarse tie at all); *)
+(* Mechanism level: CmpModelExact = CmpModel with numbers compared exactly (the code today: an *)
+(* int only ranks as a float); CmpModelX = every int converted to the nearest double first     *)
+(* (round to nearest, ties to even, 53 bits; beyond the doubles: the infinity of the sign) -   *)
+(* the code before the repair, coarser and also lawful;                                         *)
 (* CmpModelFast = the tempting variant that compares two ints exactly and everything else      *)
 (* through the doubles, which MC_Order shows to break transitivity.                            *)
 EXTENDS Order
@@ -117,7 +118,7 @@ XRound(nf) == IF Len(nf[3]) <= 53 THEN nf
 AsDouble(v) == IF IsIntKind(v) THEN XRound(XNF(v)) ELSE XNF(v)
 IsNumberX(v) == IsNumber(v) \/ IsX(v)
 \* how = "double": every int is converted to the nearest double first, an int beyond the doubles ranks with the infinity
-\*                 of its sign (the code);  "exact": numbers are compared exactly (Python's own int / float comparison);
+\*                 of its sign (the code before f59ec17);  "exact": numbers are compared exactly (the code today);
 \*       "fast":   two ints exactly, everything else through the doubles - the variant that is NOT a preorder
 XVal(how, v)   == IF how = "exact" THEN XNF(v) ELSE AsDouble(v)
 XClass(how, v) == IF IsNaN(v) THEN 3 ELSE IF IsInf(v) THEN (IF Pay(v) > 0 THEN 2 ELSE 0)
